@@ -29,7 +29,7 @@ CONT = ["gau", "gau-lp"]
 
 def cases(tier, seed):
     thorough = tier == "thorough"
-    units = [(2, 2, 1), (1, 1, 1), (2, 1, 2)] if not thorough else [(2, 2, 1), (1, 1, 1), (2, 1, 2), (3, 2, 1), (2, 3, 3)]
+    units = [(2, 2, 1), (1, 1, 1)] if not thorough else [(2, 2, 1), (1, 1, 1), (2, 1, 2), (3, 2, 1), (2, 3, 3)]
     for tree, prod, style, nary in pools.structure_pool(tier):
         nv = len(A.tree_vars(tree))
         for kin, ksum, kout in units:
@@ -40,7 +40,7 @@ def cases(tier, seed):
                     continue
                 if not thorough and inp in ("cat-softmax", "cat-logsoftmax", "bin-probs") and (kin, ksum, kout) != (2, 2, 1):
                     continue
-                for numbering in (["id", "h8"] if (kin, ksum) == (2, 2) else ["id"]):
+                for numbering in (["id", "h8"] if (kin, ksum) == (2, 2) and (thorough or inp in ("emb", "gau-lp")) else ["id"]):
                     vs = pools.var_ids(tree, numbering)
                     for outputs in (["single", "two"] if (kin, ksum, kout) == (2, 2, 1) and inp in ("emb", "cat-logits", "gau") else ["single"]):
                         circ = dict(tree=tree, prod=prod, style=style, nary=nary, kin=kin, ksum=ksum, kout=kout, inp=inp,
@@ -49,7 +49,7 @@ def cases(tier, seed):
                             if inp in CONT and len(z) > 2:
                                 continue
                             yield {"circ": circ, "mode": "single", "z": z, "vk": "monotone" if inp != "emb" else "generic"}
-                        if numbering == "id" and outputs == "single" and (kin, ksum, kout) == (2, 2, 1) and inp in ("emb", "cat-logits", "gau-lp", "cat-probs"):
+                        if numbering == "id" and outputs == "single" and (kin, ksum, kout) == (2, 2, 1) and inp in (("emb", "cat-logits", "gau-lp", "cat-probs") if thorough else ("cat-logits", "gau-lp")):
                             for z1 in pools.subsets(vs):
                                 rest = [v for v in vs if v not in z1]
                                 for z2 in pools.subsets(rest):
